@@ -155,7 +155,54 @@ package rtp
 //@   modifies h264dp.fragments
 //@   ensures len(h264dp.fragments) == 0 && h264OK(h264dp) && h264FuInv(h264dp)
 
-// variant 3 (bounded: units of at most 2 fragments): a completed unit is handed to writeFrame once, byte-exact:
+// ---- reassembly of a complete unit, for ANY number of fragments ------------------------------------------------
+// The unit that an end fragment p completes consists of the fragments buffered at entry followed by p (or of p alone
+// when p is also a start fragment). fuN: their number; fuDk(k): data bytes of the k-th; fuRestE(k): data bytes of
+// fragments k.. (a recursive definition over the ENTRY state: the verifier unfolds it at the terms it meets; what
+// needs induction is stated as lemmas, each proved by induction as a unit of its own).
+//@ spec func fuN(dp *h264Depacketizer, p *Packet) int = iteInt(fuS(p), 1, len(dp.fragments) + 1)
+//@ spec func fuDk(dp *h264Depacketizer, p *Packet, k int) int = iteInt(k == fuN(dp, p) - 1, fuD(p), fuD(dp.fragments[k]))
+//@ spec func fuRestE(dp *h264Depacketizer, p *Packet, k int) int = rec iteInt(k < 0 || k >= fuN(dp, p), 0, fuDk(dp, p, k) + fuRestE(dp, p, k+1))
+//@ spec func fuPre(dp *h264Depacketizer, p *Packet) bool = h264OK(dp) && videoPacket(p) && payloadLen(p) >= 3 && len(dp.fragments) < 1<<20
+// every tail sum is between 0 and 65535 per fragment (so no sum wraps around)
+//@ lemma func fuRestBound(dp *h264Depacketizer, p *Packet, k int) bool = fuPre(dp, p) && 0 <= k && k <= fuN(dp, p) ==> 0 <= fuRestE(dp, p, k) && fuRestE(dp, p, k) <= (fuN(dp, p) - k) << 16
+//@   induction down from fuN(dp, p)
+// the defining equation at an arbitrary index (used where the index is a quantified variable)
+//@ lemma func fuRestStep(dp *h264Depacketizer, p *Packet, k int) bool = 0 <= k && k < fuN(dp, p) ==> fuRestE(dp, p, k) == fuDk(dp, p, k) + fuRestE(dp, p, k+1)
+//@   induction down from fuN(dp, p) - 1
+// tail sums decrease with the index: fragment a's bytes lie before fragment b's for a <= b
+//@ lemma func fuRestMono(dp *h264Depacketizer, p *Packet, b int, a int) bool = fuPre(dp, p) && 0 <= a && a <= b && b <= fuN(dp, p) ==> fuRestE(dp, p, a) >= fuRestE(dp, p, b)
+//@   uselemma fuRestBound(dp, p)
+//@   induction down from b
+
+// variant 3 (unbounded: ANY number of fragments): an end fragment that completes a unit hands exactly one frame to
+// writeFrame whose length is 1 + the data bytes of all buffered fragments, whose first byte is the reconstructed NAL
+// header, and every copy lands inside the frame at the running offset (the offset after fragment k is 1 + the data
+// bytes of fragments 0..k); the list is cleared. Byte-for-byte equality of the copied data is variant 4 (bounded).
+//@ func (h264dp *h264Depacketizer) depacketizeFuA(packet *Packet) (err error)
+//@   variant end-complete
+//@   split fuS(packet), len(h264dp.fragments) == 0
+//@   requires fuPre(h264dp, packet) && h264FuInv(h264dp) && fuE(packet) && (fuS(packet) || fuContinues(h264dp, packet))
+//@   modifies h264dp.fragments, h264dp.fragments[:cap(h264dp.fragments)], h264dp.meta.Sps, h264dp.meta.Pps, h264dp.meta.Width, h264dp.meta.Height, h264dp.meta.FixedFrameRate, h264dp.meta.FrameRate, h264dp.metaReady, h264dp.dtsStep, h264dp.nextDts, ghostSeq(h264dp.w, "emitted")
+//@   local frame *codec.Frame
+//@   local frameLen, offset, rangeindex int
+//@   loop 0: modifies
+//@   loop 0: uselemma fuRestBound(h264dp, packet)
+//@   loop 0: invariant -1 <= rangeindex && rangeindex < len(h264dp.fragments) && len(h264dp.fragments) == old(fuN(h264dp, packet)) && h264dp == old(h264dp)
+//@   loop 0: invariant forall(k, 0, len(h264dp.fragments), h264dp.fragments[k] != nil && videoPacket(h264dp.fragments[k]) && payloadLen(h264dp.fragments[k]) >= 3 && fuD(h264dp.fragments[k]) == old(fuDk(h264dp, packet, k)))
+//@   loop 0: invariant frameLen + fuRestE(h264dp, packet, rangeindex+1) == 1 + fuRestE(h264dp, packet, 0)
+//@   loop 1: modifies frame.Payload[:]
+//@   loop 1: uselemma fuRestBound(h264dp, packet)
+//@   loop 1: invariant -1 <= rangeindex && rangeindex < len(h264dp.fragments) && len(h264dp.fragments) == old(fuN(h264dp, packet)) && h264dp == old(h264dp) && frame != nil && len(frame.Payload) == 1 + fuRestE(h264dp, packet, 0)
+// (the facts about the fragments themselves - loop 0's second invariant - still hold here: loop 1 writes payload bytes only)
+//@   loop 1: invariant offset + fuRestE(h264dp, packet, rangeindex+1) == len(frame.Payload) && 1 <= offset
+//@   loop 1: invariant frame.Payload[0] == (packet.Data[packet.PayloadOffset] & 0x60) | (packet.Data[packet.PayloadOffset+1] & 0x1f)
+//@   assert[call:writeFrame] len(frame.Payload) == 1 + fuRestE(h264dp, packet, 0)
+//@   assert[call:writeFrame] frame.Payload[0] == (packet.Data[packet.PayloadOffset] & 0x60) | (packet.Data[packet.PayloadOffset+1] & 0x1f)
+//@   ensures len(h264dp.fragments) == 0 && h264OK(h264dp) && h264FuInv(h264dp)
+//@   ensures len(ghostSeq(h264dp.w, "emitted")) <= old(len(ghostSeq(h264dp.w, "emitted"))) + 1
+
+// variant 4 (bounded: units of at most 2 fragments): a completed unit is handed to writeFrame once, byte-exact:
 // reconstructed NAL header, then the data of every fragment (payload minus the two FU bytes) in order.
 //@ func (h264dp *h264Depacketizer) depacketizeFuA(packet *Packet) (err error)
 //@   variant end-complete-le2
